@@ -509,8 +509,8 @@ def forces_clamp_then_tendon(mjm, st, ids, t):
   mw.apply_state_mj(m2, d2, st)
   stage(m2, d2)
   u = np.array(d2.actuator_force)
-  if any(int(mjm.actuator_biastype[i]) == int(mujoco.mjtBias.mjBIAS_DCMOTOR) for i in ids):
-    return None
+  if any(int(mjm.actuator_biastype[i]) == int(mujoco.mjtBias.mjBIAS_DCMOTOR) and mjm.actuator_forcelimited[i] for i in ids):
+    return None  # dcmotor adds mechanical forces after its own forcerange clamp: not modelled here
   f = np.array([np.clip(u[i], *mjm.actuator_forcerange[i]) if mjm.actuator_forcelimited[i] else u[i] for i in ids])
   tot = f.sum()
   lo, hi = mjm.tendon_actfrcrange[t]
@@ -734,6 +734,17 @@ def run_case(case):
         )
         fref[i] = fgot[i]
         substituted = True
+    # actuators that share a force-limited tendon with an actuator of a classified mechanism inherit its error through
+    # the common scaling factor: the whole group follows MJWarp's values (no extra violation)
+    for t in range(mjm.ntendon):
+      if not mjm.tendon_actfrclimited[t]:
+        continue
+      ids = [i for i in range(mjm.nu) if int(mjm.actuator_trntype[i]) == 3 and int(mjm.actuator_trnid[i, 0]) == t]
+      if any((i in user_gain or i in user_early) and abs(fgot[i] - ref["actuator_force"][i]) > bound[i] for i in ids):
+        for i in ids:
+          fref[i] = fgot[i]
+        substituted = True
+        rec.count("tendon_group_follows_classified_actuator")
     for t in tendon_order_candidates:
       ids = [i for i in range(mjm.nu) if int(mjm.actuator_trntype[i]) == 3 and int(mjm.actuator_trnid[i, 0]) == t]
       if not any(well[i] and abs(fgot[i] - fref[i]) > cmp.VIOL_FACTOR * bound[i] for i in ids):
